@@ -2,3 +2,4 @@ import Bcder.Props.C08
 #print axioms Bcder.Props.C08.fault_surfaces
 #print axioms Bcder.Props.C08.first_request_fails
 #print axioms Bcder.Props.C08.generic_read_fault
+#print axioms Bcder.Props.C08.octet_string_fault
